@@ -7,13 +7,13 @@ LEVEL = 'other'
 EXPLANATION = ('SCOPE rule F1 on the four merge_all observers and their queued subscribe tasks: no inner observable is subscribed, and no '
                'stored (queued) closure is called, while a guard of the shared observer_data cell may be held. An inner observable that emits '
                'synchronously at subscription re-enters InnerObserver::next, which re-acquires the same cell: RefCell panics, Mutex '
-               'self-deadlocks. Decides only the "without panicking or blocking" clause; exactly-once delivery, order, the concurrency '
+               'self-deadlocks. F2: the queue of waiting inner subscriptions is first-in-first-out (necessary for concat order and for merge_all(n) serving waiters in arrival order). Decides the "without panicking or blocking" clause and this ordering precondition; exactly-once delivery, order, the concurrency '
                'bound and the completion condition are counter arithmetic over runtime values and are not decided. Inner/outer error '
                'envelopes are checked under C03.S2.')
 ASSUMPTIONS = ['an inner observable may emit synchronously during actual_subscribe']
 
 TAGS = ['ops::merge_all::InnerObserver', 'ops::merge_all::InnerObserverThreads', 'ops::merge_all::OutsideObserver', 'ops::merge_all::OutsideObserverThreads']
-CONTROLS = ['F1|<verif_controls::LockedFlatten<O, Item> as Observer>::next']
+CONTROLS = ['F1|<verif_controls::LockedFlatten<O, Item> as Observer>::next', 'F2|src/verif_controls.rs field `stack`']
 
 
 def check(cx):
@@ -60,6 +60,11 @@ def check(cx):
                                g.loc(n), [node_desc(g, n)]))
         else:
             res.append(Finding(ID, 'F1', label, True, '%d subscribe/queued-task site(s), none under the state guard' % len(sites), fn['span']))
+    from ..core import fifo_findings
+    ff = fifo_findings(cx, ID, 'F2', ('src/ops/merge_all.rs',))
+    res += ff
+    if not cx.control and len(ff) < 1:
+        res.append(Finding(ID, 'F2', 'floor', False, 'queue of waiting inner subscriptions not found'))
     if not cx.control:
         for t in TAGS:
             if t not in seen:
